@@ -50,10 +50,10 @@ PROPS = {
         ],
     ),
     'C02': dict(
-        verus=['converter', 'filters', 'overlay'],
+        verus=['converter', 'filters', 'overlay', 'versatiles_stream'],
         kani=['tile_bbox_iter'],
         not_decided=[
-            'container readers (the base case): chunk merging, SQL range query, default lookup loop live in async stream code',
+            'container readers (the base case): the versatiles chunk grouping is under contract (unit versatiles_stream), the selection of index entries (iterator chain), the range reads and slicing, the SQL range query and the default lookup loop are not',
             'overlay: the split of a request into iter_bbox_grid(32) cells and the concatenation of the cell streams (the per-cell stream is under contract); merge stream paths',
             'multiplicity (each tile once): streams are modelled as finite maps',
         ],
@@ -66,7 +66,7 @@ PROPS = {
         ],
     ),
     'C01': dict(
-        verus=['pmtiles_dir', 'pmtiles_dir_dec', 'varint_pbf', 'tile_bbox', 'tile_index', 'block_index', 'mbtiles_pyramid'],
+        verus=['pmtiles_dir', 'pmtiles_dir_dec', 'varint_pbf', 'tile_bbox', 'tile_index', 'block_index', 'mbtiles_pyramid', 'versatiles_stream'],
         kani=['pmtiles_codec', 'versatiles_codec', 'tile_bbox', 'tile_bbox_iter'],
         not_decided=[
             'end-to-end write-then-read through async I/O (writer bodies, de-duplication closure, PMTiles write loop)',
